@@ -32,9 +32,9 @@ class Lowering:
     def lower(self, t):
         k = t.get_id()
         if k in self.cache:
-            return self.cache[k]
+            return self.cache[k][1]
         r = self._lower(t)
-        self.cache[k] = r
+        self.cache[k] = (t, r)      # keep the original alive: z3 reuses AST ids after garbage collection
         return r
 
     def _lower(self, t):
